@@ -1184,3 +1184,412 @@ def check_rorder(ctx, prog):
         ctx.ob("R-ORDER", "a rule's accepting state is allocated before the states of its regex "
                "(accepting states are numbered in rule order)", ok, key="R-ORDER:alloc",
                where=ar["span"], detail=order)
+
+
+# ------------------------------------------------------------------------------------ sibling rules on index arithmetic
+def local_named(body, name):
+    return [int(k) for k, v in body["mir"].get("names", {}).items() if v == name]
+
+
+def trace_copy(blocks, local, depth=6):
+    """Follow `_a = copy/move _b` chains (any block) to the first local that is not a plain copy."""
+    for _ in range(depth):
+        src = None
+        n = 0
+        for bb in blocks:
+            for st in bb["st"]:
+                if "lhs" in st and st["lhs"]["l"] == local and not st["lhs"]["p"]:
+                    n += 1
+                    rv = st["rv"]
+                    if rv["k"] == "use":
+                        q = rv["o"].get("copy") or rv["o"].get("move")
+                        if q is not None and not q["p"]:
+                            src = q["l"]
+        if src is None or n != 1:
+            return local
+        local = src
+    return local
+
+
+PASS_THROUGH_CALLS = ("std::ops::Deref>::deref", "::as_slice", "std::convert::AsRef", "::as_ref")
+
+
+def origin_chain(blocks, local, depth=8):
+    """Locals (and ("env", field) for closure captures) that `local` is a copy, borrow, reborrow or
+    deref of, following single definitions and slice/deref pass-through calls."""
+    chain = [local]
+    for _ in range(depth):
+        defs = []
+        for bb in blocks:
+            for st in bb["st"]:
+                if "lhs" in st and st["lhs"]["l"] == local and not st["lhs"]["p"]:
+                    defs.append(("st", st["rv"]))
+            t = bb["term"]
+            if t["k"] == "call" and t["dest"]["l"] == local and not t["dest"]["p"]:
+                defs.append(("call", t))
+        if len(defs) != 1:
+            break
+        kind, d = defs[0]
+        nxt = None
+        if kind == "st":
+            pl = None
+            if d["k"] == "use":
+                pl = d["o"].get("copy") or d["o"].get("move")
+            elif d["k"] == "ref":
+                pl = d["p"]
+            if pl is None:
+                break
+            proj = [e for e in pl["p"] if e != "*"]
+            if pl["l"] == 1 and proj:
+                chain.append(("env", repr(proj)))
+                break
+            if proj:
+                break
+            nxt = pl["l"]
+        else:
+            c = norm_path(d.get("resp") or d["f"].get("path")) or ""
+            if any(x in c for x in PASS_THROUGH_CALLS) and d["args"]:
+                q = d["args"][0].get("copy") or d["args"][0].get("move")
+                if q is not None and not q["p"]:
+                    nxt = q["l"]
+        if nxt is None:
+            break
+        chain.append(nxt)
+        local = nxt
+    return chain
+
+
+def check_roffset(ctx, prog):
+    """DFA::add_dfa shifts every index of the appended automaton (four successor kinds and the
+    predecessor sets) by the same amount: the number of states before the append."""
+    lex = prog.crate(LEX)
+    b = lex.body("dfa::DFA::add_dfa")
+    if not ctx.ob("R-OFFSET", "DFA::add_dfa found", b is not None, key="R-OFFSET:anchor"):
+        return
+    blocks = b["mir"]["blocks"]
+    n_loc = local_named(b, "n_current_states")
+    ok_n = False
+    if len(n_loc) == 1:
+        for bi, callee, t in cfg.calls_in(blocks):
+            if callee == "std::vec::Vec::len" and t["dest"]["l"] == n_loc[0] and not t["dest"]["p"]:
+                ok_n = True
+    ctx.ob("R-OFFSET", "the offset is the number of states before the append (Vec::len of self.states)",
+           ok_n, key="R-OFFSET:len", where=b["span"])
+    if not n_loc:
+        return
+    N = n_loc[0]
+    adds = []
+    for bi, bb in enumerate(blocks):
+        if bb["cleanup"]:
+            continue
+        for st in bb["st"]:
+            rv = st.get("rv")
+            if rv and rv["k"] == "bin" and rv["op"] in ("Add", "AddWithOverflow"):
+                ops = []
+                for o in (rv["a"], rv["b"]):
+                    q = o.get("copy") or o.get("move")
+                    ops.append(trace_copy(blocks, q["l"]) if q is not None and not q["p"] else None)
+                adds.append((bi, ops))
+    for bi, ops in adds:
+        ctx.ob("R-OFFSET", "add_dfa: index shifted by n_current_states", N in ops,
+               key="R-OFFSET:body-add", where=blocks[bi].get("span"), detail=ops)
+    # closures (range transitions, predecessors): the addend is the captured n_current_states
+    clos = [x for x in lex.by_norm if x.startswith("dfa::DFA::add_dfa::{closure")]
+    captured_ok = 0
+    for bi, bb in enumerate(blocks):
+        for st in bb["st"]:
+            rv = st.get("rv")
+            if rv and rv["k"] == "agg" and rv["kind"].get("agg") == "closure":
+                caps = []
+                for o in rv["ops"]:
+                    q = o.get("copy") or o.get("move")
+                    if q is not None and not q["p"]:
+                        # captured by reference: `_x = &_N`
+                        src = ref_chain_target(blocks, bi, q["l"])
+                        caps.append(src if src is not None else trace_copy(blocks, q["l"]))
+                ok = caps == [N]
+                captured_ok += 1 if ok else 0
+                ctx.ob("R-OFFSET", "add_dfa: closure %s captures exactly n_current_states" %
+                       rv["kind"]["def"].rsplit("::", 1)[-1], ok, key="R-OFFSET:closure-capture",
+                       where=bb.get("span"), detail=caps)
+    n_cl_adds = 0
+    for cn in clos:
+        cb = lex.body(cn)
+        for bb in cb["mir"]["blocks"]:
+            for st in bb["st"]:
+                rv = st.get("rv")
+                if rv and rv["k"] == "bin" and rv["op"] in ("Add", "AddWithOverflow"):
+                    n_cl_adds += 1
+                    def via_env(o, cb=cb):
+                        q = o.get("copy") or o.get("move")
+                        if q is None or q["p"]:
+                            return False
+                        ch = origin_chain(cb["mir"]["blocks"], q["l"])
+                        return any(isinstance(x, tuple) and x[0] == "env" for x in ch)
+                    ctx.ob("R-OFFSET", "add_dfa closure: index shifted by the captured offset",
+                           via_env(rv["a"]) or via_env(rv["b"]), key="R-OFFSET:closure-add",
+                           where=bb.get("span"))
+    ctx.floor("index shifts in DFA::add_dfa (char, any, end-of-input in the body; ranges and "
+              "predecessors in closures)", len(adds) + n_cl_adds, 5)
+    # returned entry index = the offset
+    ret_ok = False
+    for bb in blocks:
+        for st in bb["st"]:
+            rv = st.get("rv")
+            if rv and rv["k"] == "agg" and rv["kind"].get("adt") == "dfa::StateIdx" and \
+                    "lhs" in st and st["lhs"]["l"] == 0:
+                q = rv["ops"][0].get("copy") or rv["ops"][0].get("move")
+                if q is not None and trace_copy(blocks, q["l"]) == N:
+                    ret_ok = True
+    ctx.ob("R-OFFSET", "add_dfa returns StateIdx(n_current_states) as the appended rule set's entry",
+           ret_ok, key="R-OFFSET:return", where=b["span"])
+
+
+def check_rshift(ctx, prog):
+    """simplify renumbers rule-set entry states and transition targets with the same search over the
+    same list of removed states, and removes exactly the non-initial states without transitions."""
+    lex = prog.crate(LEX)
+    b = lex.body("dfa::simplify::simplify")
+    if not ctx.ob("R-SHIFT", "simplify found", b is not None, key="R-SHIFT:anchor"):
+        return
+    blocks = b["mir"]["blocks"]
+    loops, dom, preds = cfg.natural_loops(blocks)
+    es = local_named(b, "empty_states")
+    if not ctx.ob("R-SHIFT", "list of removed states (`empty_states`) found", len(es) == 1,
+                  key="R-SHIFT:list", where=b["span"]):
+        return
+    ES = es[0]
+    # (1) pushes to empty_states are guarded by has_no_transitions() == true and initial == false
+    hn = [bi for bi, c, t in cfg.calls_in(blocks) if c == "dfa::State::has_no_transitions"]
+    pushes = [bi for bi, c, t in cfg.calls_in(blocks)
+              if c == "std::vec::Vec::push" and local_of_mut_ref(blocks, bi, t["args"][0]) == ES]
+    ok1 = bool(hn) and bool(pushes)
+    for pb in pushes:
+        ok1 = ok1 and any(true_edge_dominates(blocks, dom, h, pb) for h in hn)
+        # `!state.initial`: a switch on a copy of the `initial` field whose false edge dominates
+        init_ok = False
+        for bi, bb in enumerate(blocks):
+            t = bb["term"]
+            if t["k"] == "switch" and len(t["arms"]) == 1 and t["arms"][0][0] == 0:
+                d = t["d"].get("move") or t["d"].get("copy")
+                if d is None:
+                    continue
+                reads_initial = False
+                for st in bb["st"]:
+                    rv = st.get("rv")
+                    if rv and "lhs" in st and st["lhs"]["l"] == d["l"]:
+                        txt = repr(rv)
+                        if "State.initial" in txt:
+                            reads_initial = True
+                if reads_initial and t["arms"][0][1] in dom.get(pb, ()):
+                    init_ok = True
+        ok1 = ok1 and init_ok
+    ctx.ob("R-SHIFT", "a state is removed only if it has no transitions and is not a rule set's "
+           "initial state", ok1, key="R-SHIFT:removal", where=b["span"],
+           detail="initial states are kept even when empty (empty rule sets): counting them as "
+                  "removed shifts every later entry index")
+    # (2) entry renumbering: a binary search over empty_states inside the loop over the entry map
+    def searches(body):
+        out = []
+        bl = body["mir"]["blocks"]
+        for bi, c, t in cfg.calls_in(bl):
+            if c and c.endswith("binary_search_by"):
+                out.append(bi)
+        return out
+    body_searches = searches(b)
+    entry_loops = []
+    for h, m in loops.items():
+        for bi, c, t in cfg.calls_in(blocks):
+            if bi in m and c and re.search(r"hash_map::(IterMut|ValuesMut).*Iterator>::next$", c):
+                entry_loops.append(m)
+    if not ctx.ob("R-SHIFT", "loop over the rule-set entry map (iter_mut/values_mut) found in simplify",
+                  bool(entry_loops), key="R-SHIFT:entry-loop", where=b["span"]):
+        return
+    consult = []
+    for m in entry_loops:
+        for bi, c, t in cfg.calls_in(blocks):
+            if bi in m and t["args"]:
+                a0 = t["args"][0].get("move") or t["args"][0].get("copy")
+                if a0 is not None and not a0["p"] and ES in origin_chain(blocks, a0["l"]):
+                    consult.append((bi, c))
+    ctx.ob("R-SHIFT", "rule-set entry indices are renumbered from the list of removed states "
+           "(`empty_states` is consulted inside the loop over the entry map)", bool(consult),
+           key="R-SHIFT:entries", where=b["span"],
+           detail={"calls on empty_states in the loop": [c for _, c in consult]})
+    in_loop = [bi for bi in body_searches if any(bi in m for m in entry_loops)]
+    # (3) transitions: the map_transition closure searches too and subtracts the found index
+    mt = [x for x in lex.by_norm if x.startswith("dfa::simplify::simplify::{closure")]
+    with_search = [x for x in mt if searches(lex.body(x))]
+    ctx.ob("R-SHIFT", "transition targets are renumbered by the same kind of search (map_transition)",
+           len(with_search) >= 1, key="R-SHIFT:transitions", where=b["span"], detail=with_search)
+    # the closure that renumbers transitions captures the same list
+    cap_ok = False
+    for bi, bb in enumerate(blocks):
+        for st in bb["st"]:
+            rv = st.get("rv")
+            if rv and rv["k"] == "agg" and rv["kind"].get("agg") == "closure" and \
+                    norm_path(rv["kind"]["def"]) in with_search:
+                for o in rv["ops"]:
+                    q = o.get("copy") or o.get("move")
+                    if q is not None and not q["p"] and ES in origin_chain(blocks, q["l"]):
+                        cap_ok = True
+    ctx.ob("R-SHIFT", "map_transition searches the same list (`empty_states` is what it captures)",
+           cap_ok, key="R-SHIFT:transitions-list", where=b["span"])
+    # the amount subtracted from an entry index is the position found by the search
+    amt_ok = False
+    for bi in in_loop:
+        res = blocks[bi]["term"]["dest"]["l"]
+        for bj, bb in enumerate(blocks):
+            for st in bb["st"]:
+                rv = st.get("rv")
+                if rv and rv["k"] == "agg" and rv["kind"].get("agg") == "closure":
+                    for o in rv["ops"]:
+                        q = o.get("copy") or o.get("move")
+                        if q is None or q["p"]:
+                            continue
+                        ch = origin_chain(blocks, q["l"])
+                        # idx = match search { Ok(i) | Err(i) => i }: the last local of the chain is
+                        # assigned from both variants of the search result
+                        last = ch[-1]
+                        srcs = set()
+                        for bb2 in blocks:
+                            for st2 in bb2["st"]:
+                                if "lhs" in st2 and st2["lhs"]["l"] == last and st2["rv"]["k"] == "use":
+                                    pl = st2["rv"]["o"].get("copy") or st2["rv"]["o"].get("move")
+                                    if pl is not None and pl["l"] == res and pl["p"]:
+                                        srcs.add(repr(pl["p"][0]))
+                        if len(srcs) == 2:
+                            amt_ok = True
+    if in_loop:
+        ctx.ob("R-SHIFT", "an entry index is lowered by the position the binary search returns (Ok and "
+               "Err alike)", amt_ok, key="R-SHIFT:entries-amount", where=b["span"])
+    else:
+        ctx.notes.append("R-SHIFT: entry renumbering does not use a binary search; the Ok/Err "
+                         "agreement obligation does not apply")
+    subs = 0
+    for x in mt:
+        for bb in lex.body(x)["mir"]["blocks"]:
+            for st in bb["st"]:
+                rv = st.get("rv")
+                if rv and rv["k"] == "bin" and rv["op"] in ("Sub", "SubWithOverflow"):
+                    subs += 1
+    ctx.floor("index subtractions in simplify's closures (entries, transitions)", subs, 2)
+
+
+def check_rinline(ctx, prog):
+    """Every place in codegen that decides 'this state is inlined into its single predecessor' uses
+    the same condition: `predecessors.len() == 1` (plus `!initial` where arms are emitted)."""
+    lex = prog.crate(LEX)
+    sites = []
+    for b in lex.bodies:
+        name = norm_path(b["path"])
+        if not name.startswith("dfa::codegen"):
+            continue
+        blocks = b["mir"]["blocks"]
+        dom = None
+        for bi, c, t in cfg.calls_in(blocks):
+            if c != "std::collections::HashSet::len":
+                continue
+            # receiver must be a `predecessors` field
+            recv = t["args"][0].get("move") or t["args"][0].get("copy")
+            is_pred = False
+            if recv is not None:
+                for st in blocks[bi]["st"]:
+                    if "lhs" in st and st["lhs"]["l"] == recv["l"] and st["rv"]["k"] == "ref":
+                        if any(isinstance(e, dict) and e.get("f", "").endswith(".predecessors")
+                               for e in st["rv"]["p"]["p"]):
+                            is_pred = True
+            if not is_pred:
+                continue
+            # Eq(len, 1) then switch
+            nxt = t["t"]
+            bb = blocks[nxt]
+            eq = None
+            for st in bb["st"]:
+                rv = st.get("rv")
+                if rv and rv["k"] == "bin" and rv["op"] == "Eq":
+                    consts = [o.get("int") for o in (rv["a"], rv["b"]) if "int" in o]
+                    eq = consts == [1]
+            sw = bb["term"]
+            if not eq or sw["k"] != "switch":
+                sites.append((name, nxt, "not `== 1`", None))
+                continue
+            true_tgt = sw["else"] if sw["arms"] and sw["arms"][0][0] == 0 else None
+            # what other conditions are tested on the true side before the decision is used?
+            extra = extra_conditions(blocks, true_tgt)
+            sites.append((name, nxt, "ok", extra))
+    # a helper returning bool that contains the test (e.g. `fn is_inlined(state) -> bool`): its call
+    # sites are the deciding sites
+    helpers = set()
+    for name, bi, status, extra in sites:
+        hb = lex.body(name)
+        if hb is not None and hb.get("sig_out") == "bool":
+            helpers.add(name)
+    if helpers:
+        sites = [x for x in sites if x[0] not in helpers]
+        for b in lex.bodies:
+            name = norm_path(b["path"])
+            if not name.startswith("dfa::codegen") or name in helpers:
+                continue
+            blocks = b["mir"]["blocks"]
+            for bi, c, t in cfg.calls_in(blocks):
+                if c in helpers:
+                    sw = blocks[t["t"]]["term"]
+                    if sw["k"] == "switch" and sw["arms"] and sw["arms"][0][0] == 0:
+                        sites.append((name, t["t"], "ok", extra_conditions(blocks, sw["else"])))
+                    else:
+                        sites.append((name, t["t"], "ok", set()))
+    for name, bi, status, extra in sites:
+        allowed_extra = {"initial"} if name == "dfa::codegen::generate_state_arms" else set()
+        ok = status == "ok" and set(extra or ()) <= allowed_extra
+        ctx.ob("R-INLINE", "%s decides inlining by `predecessors.len() == 1`%s only" % (
+            name, " and `!initial`" if allowed_extra else ""), ok,
+            key="R-INLINE:%s" % name, detail={"status": status, "extra conditions": sorted(extra or ())},
+            where="bb%d" % bi)
+    ctx.floor("sites deciding whether a state is inlined", len(sites), 5)
+
+
+def extra_conditions(blocks, start, limit=6):
+    """Kinds of further tests reached from `start` before the first call or return: names of boolean
+    fields read / callee names whose result is switched on."""
+    out = set()
+    seen = set()
+    work = [(start, 0)]
+    while work:
+        b, d = work.pop()
+        if b is None or b in seen or d > limit:
+            continue
+        seen.add(b)
+        bb = blocks[b]
+        t = bb["term"]
+        if t["k"] == "switch":
+            dl = t["d"].get("move") or t["d"].get("copy")
+            label = "?"
+            if dl is not None:
+                for st in bb["st"]:
+                    if "lhs" in st and st["lhs"]["l"] == dl["l"]:
+                        txt = repr(st["rv"])
+                        m = re.search(r"State\.(\w+)", txt)
+                        label = m.group(1) if m else ("discr" if st["rv"]["k"] == "discr" else "?")
+                # result of a call in a predecessor block
+                for bb2 in blocks:
+                    t2 = bb2["term"]
+                    if t2["k"] == "call" and t2["dest"]["l"] == dl["l"] and not t2["dest"]["p"] and t2["t"] == b:
+                        label = norm_path(t2.get("resp") or t2["f"].get("path")) or "?"
+            if label != "discr":
+                out.add(label)
+            for _, tg in t["arms"]:
+                work.append((tg, d + 1))
+            work.append((t["else"], d + 1))
+        elif t["k"] == "goto":
+            work.append((t["t"], d))
+        elif t["k"] == "call":
+            c = norm_path(t.get("resp") or t["f"].get("path")) or ""
+            if c.endswith("::contains_key") or c.endswith("::contains") or c.endswith("::is_empty") \
+                    or c.endswith("::get") or c.endswith("::len") or "Index>::index" in c \
+                    or "Deref>::deref" in c or "PartialEq" in c:
+                work.append((t["t"], d + 1))
+        elif t["k"] == "assert":
+            work.append((t["t"], d))
+        # other calls / returns end the search
+    return out
